@@ -143,6 +143,50 @@ impl Fam<'_> {
         }
     }
 
+    /// iterator operators running *inside* the function of another operator (a mapper that collects, a predicate that
+    /// folds, a source that collects on every pull): the inner run must not disturb the outer one
+    fn nested(&mut self) {
+        let rows = "[[1, 2], [3, 4], [5]]";
+        let cases: [(&str, &str, &str); 16] = [
+            ("collect-in-map", "ROWS~ @ (r: [int]) -> [int] { return r~ @ (x: int) -> int { return x * 10 } $] } $]", "[[10, 20], [30, 40], [50]]"),
+            ("sum-in-map", "ROWS~ @ (r: [int]) -> int { return r~ $+ } $]", "[3, 7, 5]"),
+            ("product-in-map", "ROWS~ @ (r: [int]) -> int { return r~ $* } $]", "[2, 12, 5]"),
+            ("reduce-in-map", "ROWS~ @ (r: [int]) -> int { return r~ $ 100 (a: int, x: int) -> int { return a - x } } $]", "[97, 93, 95]"),
+            ("collect-in-filter", "ROWS~ ? (r: [int]) -> bool { return std.len(r~ ? (x: int) -> bool { return x > 2 } $]) > 0 } $]", "[[3, 4], [5]]"),
+            ("all-in-filter", "ROWS~ ? (r: [int]) -> bool { return r~ @ (x: int) -> bool { return x < 5 } $&& } $]", "[[1, 2], [3, 4]]"),
+            ("any-in-filter", "ROWS~ ? (r: [int]) -> bool { return r~ @ (x: int) -> bool { return x == 4 } $|| } $]", "[[3, 4]]"),
+            ("collect-in-reduce", "ROWS~ $ [0] (acc: [int], r: [int]) -> [int] { return acc + (r~ @ (x: int) -> int { return x + 1 } $]) }", "[0, 2, 3, 4, 5, 6]"),
+            ("collect-in-partition", "ROWS~ \\ (r: [int]) -> bool { return std.len(r~ $]) == 2 }", "([[1, 2], [3, 4]], [[5]])"),
+            ("bitor-in-map", "ROWS~ @ (r: [int]) -> int { return r~ $| } $]", "[3, 7, 5]"),
+            ("bitand-in-map", "ROWS~ @ (r: [int]) -> int { return r~ $& } $]", "[0, 0, 5]"),
+            ("type-filter-in-map", "[[1, \"a\"], [\"b\", 2, 3]]~ @ (r: [int|string]) -> [int] { return r~ ? int $] } $]", "[[1], [2, 3]]"),
+            ("collect-in-source", "src := (a: [int]) -> () -> (bool, int) { i := mut 0; return () -> (bool, int) { seen := a~ $]; if *i < std.len(seen) { i += 1; return (true, seen[*i - 1] * seen[*i - 1]) } return (false, 0) } }; src([1, 2, 3, 4]) $]", "[1, 4, 9, 16]"),
+            ("for-in-map", "ROWS~ @ (r: [int]) -> int { c := mut 0; for x in r~ { c += x; } return *c } $]", "[3, 7, 5]"),
+            ("collect-of-collect", "(ROWS~ @ (r: [int]) -> [int] { return r~ $] } $])~ @ (r: [int]) -> int { return std.len(r~ $]) } $]", "[2, 2, 1]"),
+            ("two-levels", "[ROWS, ROWS]~ @ (m: [[int]]) -> [int] { return m~ @ (r: [int]) -> int { return r~ $+ } $] } $]", "[[3, 7, 5], [3, 7, 5]]"),
+        ];
+        for (label, tail, want) in cases {
+            for (form, src) in [
+                ("literal", tail.replace("ROWS", rows)),
+                ("run-time", format!("f := (rows: [[int]]) -> any {{ return {} }}; f({rows})", tail.replace("ROWS", "rows"))),
+            ] {
+                if form == "run-time" && tail.contains(":= (a") {
+                    continue;
+                }
+                self.rep.evaluations += 1;
+                self.rep.count("seqdef-nested-cases");
+                self.rep.shape("seqdef_operators", &format!("nested:{label}"));
+                let got = match real::parse_exec(&src, true) {
+                    Outcome::Value(v) => canon(&v),
+                    other => other.tag(),
+                };
+                if got != want {
+                    self.rep.violation(&format!("c11:sequence-definition:nested:{label}"), &format!("`{}` ({form}) gave {}, the sequence definitions give {want}", truncate(&src, 400), truncate(&got, 200)), "diff", &format!("#template {want}\n{src}\n"));
+                }
+            }
+        }
+    }
+
     /// `it ? T` over sources of a *declared* element type E (not only `any`): the selection is exactly the elements whose
     /// value belongs to T (harness membership on the actual contents), whatever E and T have to do with each other
     fn typed_filters(&mut self, cfg: &Cfg) {
@@ -245,6 +289,9 @@ pub fn run(cfg: &Cfg, rep: &mut Report) {
                 .collect();
             fam.floats(&l);
         }
+    }
+    if cfg.shard == 0 {
+        fam.nested();
     }
     fam.typed_filters(cfg);
 }
